@@ -19,7 +19,7 @@ MANIFEST = {
 
 RULE = ("one generated XGo program per run: 21 fixed + N random probes (start,end in [-12,12], step in [-6,6] or |step|>span, 4% step 0; each bound written as "
         "literal / negated literal / variable / constant / pure call / stateful call / arithmetic / omitted) and an exhaustive grid |start|,|end| <= G, 0<|step| <= K "
-        "(quick G=6,K=4; thorough G=10,K=10) with variable bounds, expression bounds and omitted parts; every probe runs in for-in (in / <-), for-range (:=), "
+        "(quick G=8,K=6; thorough G=12,K=12) with variable bounds, expression bounds and omitted parts; every probe runs in for-in (in / <-), for-range (:=), "
         "for-range (=), for range (count only), for-in with condition, and a list comprehension; a case = (context, bound kinds, start, end, step); "
         "non-trivial = non-empty sequence or negative step")
 
@@ -40,7 +40,7 @@ def run(ctx):
         "the loop body assigns neither the loop variable nor a variable used as end/step",
         "step != 0 (step 0: the iterator panics with a division by zero, the emitted loop never ends; modelled and compared, outside the property)",
     ]
-    common.standard(ctx, "GopModel.Props.C04", "c04", 40, 400, RULE,
+    common.standard(ctx, "GopModel.Props.C04", "c04", 200, 1500, RULE,
                     extract=("rangeloop",), driver="drv_range", post=post)
 
 
